@@ -143,6 +143,11 @@ pub struct GenOpts {
     pub backing_pct: u32,
     /// set by gen_cfg for the run being generated
     pub wide_l1_now: bool,
+    /// percent of runs with an allocator-stress shape: refcount block slices
+    /// of 64..256 entries, a fill phase, scattered discards, multi-cluster
+    /// writes (allocations that span slices and meet fragmentation)
+    pub frag_pct: u32,
+    pub frag_now: bool,
 }
 
 impl Default for GenOpts {
@@ -177,6 +182,8 @@ impl Default for GenOpts {
             wide_l1_pct: 8,
             backing_pct: 25,
             wide_l1_now: false,
+            frag_pct: 6,
+            frag_now: false,
         }
     }
 }
@@ -241,6 +248,14 @@ pub fn gen_layer(rng: &mut Rng, o: &GenOpts, cluster_bits: u32, top: bool, idx_i
     if o.wide_l1_now && top {
         vsize = l2cover * rng.range(65, 200) + cs * rng.below(cs / 8);
     }
+    if o.frag_now && top {
+        vsize = cs * rng.range(300, 900);
+    }
+    let refcount_order = if o.frag_now && top && version >= 3 {
+        *rng.pick(&[6u32, 6, 5, 4])
+    } else {
+        refcount_order
+    };
     let builder = o.force_builder || version == 2 || (o.allow_builder && rng.chance(1, 2)) || !top;
     let mut guest: Vec<(u64, u8)> = Vec::new();
     let mut empty_l2 = vec![];
@@ -303,10 +318,20 @@ pub fn gen_layer(rng: &mut Rng, o: &GenOpts, cluster_bits: u32, top: bool, idx_i
     }
 }
 
+thread_local! {
+    /// whether the configuration generated last has the allocator-stress shape
+    /// (gen_steps, called next, adds the matching phases)
+    static FRAG_NOW: std::cell::Cell<bool> = const { std::cell::Cell::new(false) };
+}
+
 pub fn gen_cfg(rng: &mut Rng, o: &GenOpts) -> Cfg {
     let wide = !o.growth_geometry && o.wide_l1_pct > 0 && rng.below(100) < o.wide_l1_pct as u64;
+    let frag = !o.growth_geometry && !wide && o.frag_pct > 0 && rng.below(100) < o.frag_pct as u64;
+    FRAG_NOW.with(|f| f.set(frag));
     let cluster_bits = if o.growth_geometry {
         *rng.pick(&[9u32, 9, 9, 10])
+    } else if frag {
+        *rng.pick(&[9u32, 9, 10, 12])
     } else if wide {
         *rng.pick(&[9u32, 9, 10])
     } else {
@@ -314,6 +339,7 @@ pub fn gen_cfg(rng: &mut Rng, o: &GenOpts) -> Cfg {
     };
     let mut o = o.clone();
     o.wide_l1_now = wide;
+    o.frag_now = frag;
     let o = &o;
     let mut layers = vec![gen_layer(rng, o, cluster_bits, true, 0)];
     let depth = if o.force_backing {
@@ -334,6 +360,7 @@ pub fn gen_cfg(rng: &mut Rng, o: &GenOpts) -> Cfg {
         bo.force_builder = true;
         bo.l1_short_pct = 0;
         bo.wide_l1_now = false;
+        bo.frag_now = false;
         let mut l = gen_layer(rng, &bo, cb, false, d as usize + 1);
         let top_v = layers[0].vsize;
         let cs = 1u64 << cb;
@@ -387,7 +414,7 @@ pub fn gen_cfg(rng: &mut Rng, o: &GenOpts) -> Cfg {
     let tz = layers.iter().map(|l| l.vsize.trailing_zeros()).min().unwrap();
     let max_bs_bits = if o.allow_big_bs { 12u32.min(cluster_bits).min(tz) } else { 9 };
     let bs_bits = *rng.pick(&[9u32, 9, 9, 10, 12]);
-    let bs_bits = bs_bits.min(max_bs_bits) as u8;
+    let bs_bits = if frag { 9 } else { bs_bits.min(max_bs_bits) as u8 };
     // the library formats the L1 area in block units; keep the virtual size
     // block aligned for the top layer when the block size is larger
     let default_params = o.allow_default_params && rng.chance(1, 6);
@@ -406,6 +433,13 @@ pub fn gen_cfg(rng: &mut Rng, o: &GenOpts) -> Cfg {
             Some((bits, cnt << bits))
         };
         (mk(rng), mk(rng))
+    };
+    let (l2_cache, rb_cache) = if frag {
+        // refcount block slices of one 512-byte block, a handful of them
+        let l2 = l2_cache.or(Some((9, 8 << 9)));
+        (l2, Some((9u8, (rng.range(2, 6) as usize) << 9)))
+    } else {
+        (l2_cache, rb_cache)
     };
     let (inline_pct, early_visible, fifo_pct, poll_first_pct) = if o.schedule_knobs {
         (
@@ -690,6 +724,51 @@ pub fn gen_steps(rng: &mut Rng, cfg: &Cfg, o: &GenOpts) -> Vec<Step> {
                 _ => {}
             }
         }
+    }
+    if FRAG_NOW.with(|f| f.get()) {
+        let cs = cfg.cs();
+        let gcl = cfg.vsize() / cs;
+        // fill: a few long writes
+        let fill = rng.range(150, 520).min(gcl.saturating_sub(40));
+        let mut pos = 0u64;
+        while pos < fill {
+            let n = rng.range(20, 200).min(fill - pos).min((8 << 20) / cs);
+            steps.push(Step::Seq(Op::Write { off: pos * cs, len: (n * cs) as u32 }));
+            pos += n;
+        }
+        if rng.chance(1, 2) {
+            steps.push(Step::Seq(Op::Flush));
+        }
+        // holes
+        for _ in 0..rng.range(8, 40) {
+            let g = rng.below(fill);
+            let n = rng.range(1, 4).min(fill - g);
+            steps.push(Step::Seq(Op::Discard { off: g * cs, len: n * cs }));
+            if rng.chance(1, 12) {
+                steps.push(Step::Seq(Op::Flush));
+            }
+        }
+        if rng.chance(2, 3) {
+            steps.push(Step::Seq(Op::Flush));
+        }
+        // multi-cluster writes into fresh and into discarded places
+        for _ in 0..rng.range(4, 16) {
+            let n = rng.range(2, 24);
+            let g = if rng.chance(1, 2) {
+                fill + rng.below((gcl - fill).max(1))
+            } else {
+                rng.below(fill)
+            };
+            let n = n.min(gcl - g);
+            if n == 0 {
+                continue;
+            }
+            steps.push(Step::Seq(Op::Write { off: g * cs, len: (n * cs) as u32 }));
+            if rng.chance(1, 6) {
+                steps.push(Step::Seq(Op::Flush));
+            }
+        }
+        steps.push(Step::Seq(Op::Flush));
     }
     while count < n {
         if rng.below(100) < o.par_pct as u64 {
